@@ -27,6 +27,8 @@ type C20Case struct {
 	// Opts: 1 = no -o (output on stdout), 2 = no -e (error report on stderr),
 	// 4 = long option names and "--" before the input file
 	Opts int `json:"opts,omitempty"`
+	// Doc2: a second input file, processed after Doc in the same run (file route only)
+	Doc2 []byte `json:"doc2,omitempty"`
 }
 
 type cliResult struct {
@@ -80,6 +82,13 @@ func runCLI(c C20Case) cliResult {
 			harnessBug("write input: %v", err)
 		}
 		cmd.Args = append(cmd.Args, in)
+		if c.Doc2 != nil {
+			in2 := filepath.Join(dir, "in2.ion")
+			if err := os.WriteFile(in2, c.Doc2, 0o644); err != nil {
+				harnessBug("write input: %v", err)
+			}
+			cmd.Args = append(cmd.Args, in2)
+		}
 	}
 	var stderr, stdout bytes.Buffer
 	cmd.Stderr, cmd.Stdout = &stderr, &stdout
@@ -290,6 +299,14 @@ func runC20(c C20Case) string {
 func runC20One(c C20Case) string {
 	st := Stat("C20")
 	vals, valid, witness := c20Source(c.Doc)
+	if c.Doc2 != nil && !c.Stdin {
+		// two input files: the output holds the values of both, in order
+		vals2, valid2, _ := c20Source(c.Doc2)
+		if !valid || !valid2 {
+			harnessBug("C20: a second input file is only generated next to two valid documents")
+		}
+		vals = append(append([]model.Value{}, vals...), vals2...)
+	}
 	format := c.Format
 	if format == "" {
 		format = "default(pretty)"
@@ -303,6 +320,9 @@ func runC20One(c C20Case) string {
 		})
 	}
 	route := map[bool]string{true: "stdin", false: "file"}[c.Stdin]
+	if c.Doc2 != nil && !c.Stdin {
+		route = "two-files"
+	}
 	if c.Opts != 0 {
 		route += fmt.Sprintf("+opts%d", c.Opts)
 	}
@@ -310,7 +330,7 @@ func runC20One(c C20Case) string {
 	if !valid {
 		cls = map[bool]string{true: "source.invalid", false: "source.undecided"}[witness]
 	}
-	st.Eval(nt || !valid, model.DigestBytes("c20 "+c.Format+route, c.Doc), "format."+format, "input."+route, cls, map[bool]string{true: "source.binary", false: "source.text"}[isBinaryDoc(c.Doc)])
+	st.Eval(nt || !valid, model.DigestBytes("c20 "+c.Format+route, append(append([]byte{}, c.Doc...), c.Doc2...)), "format."+format, "input."+route, cls, map[bool]string{true: "source.binary", false: "source.text"}[isBinaryDoc(c.Doc)])
 	st.Sample(func() string { return fmt.Sprintf("-f %s via %s: %s", format, route, showDoc(c.Doc)) })
 	r := runCLI(c)
 	desc := func() string {
@@ -413,6 +433,15 @@ func genC20(t *rapid.T) C20Case {
 			c.Doc = printDoc(vals, gen.RapidChooser{T: t}).Doc
 		} else {
 			c.Doc = encodeDoc(vals, gen.RapidChooser{T: t}).Doc
+		}
+		if !c.Stdin && gen.Chance(t, 30) {
+			// a second input file (text or binary, independently of the first)
+			vals2 := gen.SanitizeTop(gen.Seq(t, cfg, 4))
+			if gen.Chance(t, 50) {
+				c.Doc2 = printDoc(vals2, gen.RapidChooser{T: t}).Doc
+			} else {
+				c.Doc2 = encodeDoc(vals2, gen.RapidChooser{T: t}).Doc
+			}
 		}
 	}
 	return c
